@@ -1,21 +1,21 @@
 CONSTANTS
   EB = 20
   StaleP = 200
-  MaxOps = 7
+  MaxOps = 8
   MaxMonths = 3
   GenHist = TRUE
   GenBias = FALSE
   FixRenew = TRUE
   PlanIdx = {"p1"}
-  Durs = {1}
+  Durs = {1, 2}
   WithRelay = FALSE
   Consumers = {"c1", "c2"}
   ThirdParty = {}
   WithDrain = TRUE
-  Acts = {"planadd", "plandel", "buy", "adv", "auto", "block", "epoch", "stale"}
+  Acts = {"planadd", "buy", "block"}
   PriceVar = {0}
 INIT Init
 NEXT Next
-INVARIANTS TypeOK PlanAvailable NoPanic CuBounded LeftPositive RefsCoverHolders HeldVersionsExist
+INVARIANTS NoTarget
 CHECK_DEADLOCK FALSE
 VIEW NoHistView
